@@ -176,6 +176,7 @@ class FnSpec:
         self.loop_iter = {}
         self.after_loops = {}
         self.before_loops = {}
+        self.attrs = []
         self.insert_after, self.insert_before = [], []
         self.is_slice = False
         self.from_anchor = self.to_anchor = self.must_precede = None
@@ -206,6 +207,10 @@ def parse_template(path):
             flush()
             inc = os.path.join(VERIF, s[len("//@@ include "):].strip())
             parts.extend(parse_template(inc))
+            i += 1
+        elif s.startswith("//@@ file-consts "):
+            flush()
+            parts.append(("consts", s[len("//@@ file-consts "):].strip(), path))
             i += 1
         elif s.startswith("//@@ item "):
             flush()
@@ -289,6 +294,8 @@ def parse_template(path):
                         target = []
                         mm = re.match(r"after(?:#(\d+))? (.*)$", d)
                         fs.after.append((mm.group(2).strip().strip('"'), target, int(mm.group(1)) if mm.group(1) else None))
+                    elif d == "attr":
+                        target = fs.attrs
                     elif d == "body-start":
                         target = fs.body_start
                     elif d.startswith("from "):
@@ -643,6 +650,8 @@ def build_fn(fs, canary=False):
         header = _add_canary(header, fs.id)
     if fs.assume:
         out.append(GenLine("#[verifier::external_body]", "inj", fs.id))
+    for a_ in fs.attrs:
+        out.append(GenLine(a_, "inj", fs.id))
     sig_lines = sig_out.split("\n")
     for k, ln in enumerate(sig_lines):
         out.append(GenLine(ln, "src", fs.id, src_file=fs.file, src_line=src_first_line + k))
@@ -891,6 +900,19 @@ def generate(template, out_path, canary=False, lenient=False):
                 if m:
                     g.obl, g.props = m.group(1), m.group(2).split()
                 gen.append(g)
+        elif kind == "consts":
+            # top-level `const NAME: <primitive> = <literal>;` items of the file (a change may introduce one)
+            fpath = os.path.join(REPO, payload)
+            if os.path.exists(fpath):
+                srcc = _read(fpath)
+                tk = lex(srcc)
+                from rustlex import items_in
+                for it in items_in(tk, 0, len(tk)):
+                    ht = it.header_tokens()
+                    if "const" in ht[:3] and "fn" not in ht and it.body_open is None:
+                        text = srcc[tk[it.head_start].start:tk[it.end - 1].end]
+                        if re.match(r"^(pub(\([a-z]+\))?\s+)?const\s+\w+\s*:\s*(u8|u16|u32|u64|usize|i8|i16|i32|i64|isize|bool|char|f64|&str|&'static str)\s*=\s*[^;{}]+;$", _norm(text)):
+                            gen.append(GenLine(re.sub(r"^pub(\([a-z]+\))?\s+", "", text), "src", src_file=payload, src_line=_line_of(srcc, tk[it.head_start].start)))
         elif kind == "item":
             lines, info = build_item(*payload)
             gen.extend(lines)
